@@ -107,7 +107,7 @@ CLAIMS = {
             "note": TIE + "Preset tables are tied by the translator gen/extract_tables.py (regex extraction, fails loudly). " + FLOATS},
     "C06": {"text": "Theorems: one Kalman::process call = one step of the textbook recursion Spec.kalmanTextbook, for EVERY sample type and configuration (kalman_step_textbook, kalman_state: no algebraic law needed); over ordered fields: hull and non-negative covariance for a=c=1,b=0,r>=0,q>0 over whole streams (kalman_hull, kalman_step_hull); plain = zero control (kalman_zero_control). The textbook recursion is an executable specification evaluated against the implementation on every run (exact rationals).",
             "note": TIE + FLOATS},
-    "C07": {"text": "Theorem db_reconstructs: for EVERY provided order, every input bounded by B and every index n, |Synthesize(Analyze x)[n] - x[n-(N-1)]| <= 1e-8*B in exact arithmetic, with the kernels derived exactly as daubechies.rs derives them from its (regenerated) table — via cascade_kernel (analysis then synthesis = one edge-padded FIR with kernel low'*low + high'*high, any kernels), convL_residual_bound and the table theorem db_residuals. Further, over commutative rings / ordered fields: feeding one edge-padded FIR into another is the edge-padded FIR of the kernel product (convL_polyMul), error bound |convL r x n| <= (sum |r|) * B (convL_bound), delayed unit impulse picks x[n-d] (convL_delta); for each of the ten coefficient tables, REGENERATED from daubechies.rs on every run and processed exactly as the macro does (normalise, reverse, alternate signs): reconstruction residual <= 1e-8, low-pass gain 1, |high-pass gain| <= 1e-8 (db_residuals, db_low_gain, db_high_gain, db_lengths by decide +kernel). Correspondence: f64/f32 presets bit-exact against the model at Lean Float/Float32, cascade outputs against the reconstruction bound.",
+    "C07": {"text": "At registry level (what the driver executes): analyze_registry_correct (the two outputs are the edge-padded convolutions with the two configured kernels, any kernels), synthesize_registry_correct (sum of the two convolutions of the two input streams), daubechies_registry_reconstructs (for EVERY provided table, the registry analysis filter followed by the registry synthesis filter on any finite signal bounded by B reproduces it delayed by N-1 within 1e-8*B). Underneath, theorem db_reconstructs: for EVERY provided order, every input bounded by B and every index n, |Synthesize(Analyze x)[n] - x[n-(N-1)]| <= 1e-8*B in exact arithmetic, with the kernels derived exactly as daubechies.rs derives them from its (regenerated) table — via cascade_kernel (analysis then synthesis = one edge-padded FIR with kernel low'*low + high'*high, any kernels), convL_residual_bound and the table theorem db_residuals. Further, over commutative rings / ordered fields: feeding one edge-padded FIR into another is the edge-padded FIR of the kernel product (convL_polyMul), error bound |convL r x n| <= (sum |r|) * B (convL_bound), delayed unit impulse picks x[n-d] (convL_delta); for each of the ten coefficient tables, REGENERATED from daubechies.rs on every run and processed exactly as the macro does (normalise, reverse, alternate signs): reconstruction residual <= 1e-8, low-pass gain 1, |high-pass gain| <= 1e-8 (db_residuals, db_low_gain, db_high_gain, db_lengths by decide +kernel). Correspondence: f64/f32 presets bit-exact against the model at Lean Float/Float32, cascade outputs against the reconstruction bound.",
             "note": TIE + "Tables are tied by the translator gen/extract_tables.py. " + FLOATS},
     "C08": {"text": "Theorems: Schmitt step = reference automaton for every low/high (schmitt_ref); debounce counter saturating at any bound M = min(run length, M) and on <=> run >= threshold whenever threshold <= M (debounce_eq_min, debounce_on_iff, runLenFrom_spec). Correspondence incl. samples equal to thresholds, NaN, counter injected at usize::MAX, debug + release.",
             "note": TIE},
